@@ -939,6 +939,18 @@ struct Explorer {
         }
         ++k;
       }
+      // inputs that an existing dyndep file (a source itself) adds to the statement count like written ones
+      if (!st.dyndep.empty() && !v->producer.count(st.dyndep) && before.Get(st.dyndep)) {
+        const string& dd = before.Get(st.dyndep)->data;
+        for (auto& x : st.spec.reads) {
+          bool declared = false;
+          for (auto* l : {&st.ex, &st.im, &st.oo}) for (auto& y : *l) if (y == x) declared = true;
+          if (declared || v->producer.count(x) || before.Get(x) || dd.find(" " + x) == string::npos) continue;
+          missing += x + " ";
+          kinds += "implicit-through-a-dyndep-file ";
+          only_oo_or_val = false;
+        }
+      }
     }
     for (auto& t : roots) if (!v->producer.count(t) && !before.Get(t)) { missing += t + " "; kinds += "target "; only_oo_or_val = false; }
     if (missing.empty()) return;
